@@ -105,6 +105,16 @@ def unary_calls(shape):
         yield f"expand_dims {ax}", "expand_dims", (lambda f, x, a=ax: f(x, a))
     for fn in ("atleast_1d", "atleast_2d", "atleast_3d"):
         yield fn, fn, (lambda f, x: f(x))
+    # every optional argument left at its default
+    if nd:
+        yield "split default axis", "split", (lambda f, x: f(x, 1))
+        yield "split [1] default axis", "split", (lambda f, x: f(x, [1]))
+        yield "array_split default axis", "array_split", (lambda f, x: f(x, 2))
+        yield "array_split [1] default axis", "array_split", (lambda f, x: f(x, [1]))
+    if nd in (1, 2):
+        yield "diag default k", "diag", (lambda f, x: f(x))
+    yield "reshape default order", "reshape", (lambda f, x: f(x, (-1,)))
+    yield "tile default", "tile", (lambda f, x: f(x, 2))
     # keyword spellings of the same arguments
     yield "reshape shape=(-1,)", "reshape", (lambda f, x: f(x, shape=(-1,)))
     yield "reshape shape=, order=F", "reshape", (lambda f, x: f(x, shape=(n,), order="F"))
@@ -445,6 +455,9 @@ def run_multi(case, R):
             joins.append((f"stack axis={ax}", "stack", lambda f, xs, a=ax: f(xs, axis=a)))
         for fn in ("hstack", "vstack", "dstack"):
             joins.append((fn, fn, lambda f, xs: f(xs)))
+        if nd:
+            joins.append(("concatenate default axis", "concatenate", lambda f, xs: f(xs)))
+        joins.append(("stack default axis", "stack", lambda f, xs: f(xs)))
         joins.append(("broadcast_arrays", "broadcast_arrays", lambda f, xs: f(*xs)))
         joins.append(("atleast_2d multi", "atleast_2d", lambda f, xs: f(*xs)))
         for label, fname, g in joins:
